@@ -1,0 +1,6 @@
+//go:build !verif
+// +build !verif
+
+package sarama
+
+func verifHook(point string, args ...interface{}) {}
